@@ -16,7 +16,8 @@ package oidc
 
 import (
 	"context"
-	"math/rand"
+	"crypto/rand"
+	"math/big"
 	"time"
 
 	"github.com/redis/go-redis/v9"
@@ -146,10 +147,9 @@ var (
 )
 
 type (
-	// randomGenerator is a session generator that uses random strings.
-	randomGenerator struct {
-		rand *rand.Rand
-	}
+	// randomGenerator is a session generator that uses random strings
+	// drawn from the operating system's cryptographically secure source.
+	randomGenerator struct{}
 
 	// staticGenerator is a session generator that uses static strings.
 	staticGenerator struct {
@@ -162,9 +162,7 @@ type (
 
 // NewRandomGenerator creates a new random session generator.
 func NewRandomGenerator() SessionGenerator {
-	return &randomGenerator{
-		rand: rand.New(rand.NewSource(time.Now().UnixNano())),
-	}
+	return &randomGenerator{}
 }
 
 func (r randomGenerator) GenerateSessionID() string {
@@ -186,8 +184,15 @@ func (r randomGenerator) GenerateCodeVerifier() string {
 func (r *randomGenerator) generate(n int) string {
 	const charset = "abcdefghijklmnopqrstuvwxyzABCDEFGHIJKLMNOPQRSTUVWXYZ0123456789"
 	b := make([]byte, n)
+	max := big.NewInt(int64(len(charset)))
 	for i := range b {
-		b[i] = charset[r.rand.Intn(len(charset))]
+		// Session ids, state and nonce must be unpredictable: never derive them from a
+		// seedable generator. crypto/rand does not fail on the supported platforms.
+		idx, err := rand.Int(rand.Reader, max)
+		if err != nil {
+			panic("crypto/rand is unavailable: " + err.Error())
+		}
+		b[i] = charset[idx.Int64()]
 	}
 	return string(b)
 }
